@@ -7,13 +7,16 @@ from engine import replay_c
 TC = {0: 'i', 1: 'd', 2: 'z'}
 
 
-def make_call(module, func, params, mats, model):
-    """params: [(name, code, optional)]"""
+def make_call(module, func, params, mats, model, fill=None):
+    """params: [(name, code, optional)]; fill: {matrix name: value} gives
+    every element of that integer matrix the value"""
     args, kwargs = [], {}
     seed = 1
     for (name, code, opt) in params:
         if code == 'O':
             ism = model.get('ismat(%s)' % name)
+            if opt and model.get('given(%s)' % name) is False:
+                continue
             if name in mats or ism is True:
                 if ism is False:
                     v = {'kind': 'none'}
@@ -24,7 +27,13 @@ def make_call(module, func, params, mats, model):
                          'tc': TC.get(model.get(name + '.id', 1), 'd'),
                          'seed': seed}
                     seed += 100
+                    if fill and name in fill:
+                        v['fill'] = fill[name]
+                    es = 16 if v['tc'] == 'z' else 8
                     if v['nrows'] * v['ncols'] > 2000000:
+                        # zero-filled, contents not compared
+                        v['big'] = True
+                    if v['nrows'] * v['ncols'] * es > 40 * 2**30:
                         return None
             else:
                 if opt and not model.get('given(%s)' % name, False):
@@ -42,7 +51,8 @@ def make_call(module, func, params, mats, model):
         elif code in ('c', 'C'):
             if name not in model and opt:
                 continue
-            v = {'kind': 'char', 'value': model.get(name, ord('N'))}
+            v = {'kind': 'char' if code == 'C' else 'bytechar',
+                 'value': model.get(name, ord('N'))}
         elif code == 'd':
             v = {'kind': 'float', 'value': float(model.get(name, 1.0))}
         else:
@@ -70,17 +80,23 @@ def check_extern_log(res):
     the registered buffers, invalid arguments)"""
     from contracts.c.extern_blas import ROUTINES
     try:
-        from contracts.c.extern_lapack import ROUTINES as LR
+        from contracts.c import extern_lapack as XL
+        LR = XL.ROUTINES
     except Exception:
-        LR = {}
+        XL, LR = None, {}
     probs = []
     bufs = res.get('bufs', {})
     for c in res.get('calls', []):
-        rt = ROUTINES.get(c['routine']) or LR.get(c['routine'])
+        islap = False
+        rt = ROUTINES.get(c['routine'])
+        if rt is None:
+            rt = LR.get(c['routine'])
+            islap = True
         if rt is None:
             continue
         ip = {k: z3.IntVal(v) for k, v in c.items() if k != 'routine' and
               k not in rt.arrays}
+        query = islap and any(c.get(w) == -1 for w in XL.WORKSIZE)
         for text, f in rt.requires:
             try:
                 ok = zeval(f(ip))
@@ -89,8 +105,25 @@ def check_extern_log(res):
             if ok is False:
                 probs.append({'routine': c['routine'], 'invalid': text,
                               'actuals': {k: v for k, v in c.items()}})
-        touched = zeval(rt.when(ip)) if rt.when else True
-        for nm, (mode, fp) in rt.arrays.items():
+        if islap and not query:
+            for w, f in rt.minwork.items():
+                if w in c:
+                    try:
+                        lo = zeval(f(ip))
+                    except KeyError:
+                        lo = None
+                    if lo is not None and c[w] < lo:
+                        probs.append({'routine': c['routine'], 'invalid':
+                                      '%s >= documented minimum %d' % (w, lo),
+                                      'actuals': dict(c)})
+        touched = zeval(rt.when(ip)) if getattr(rt, 'when', None) else True
+        for nm, spec in rt.arrays.items():
+            mode, fp = spec[0], spec[1]
+            es = rt.elsize
+            if islap:
+                es = XL.esz(rt, spec[2] if len(spec) > 2 else 'T')
+                if query:
+                    continue
             try:
                 elems = zeval(fp(ip)) if touched else 0
             except KeyError:
@@ -98,12 +131,22 @@ def check_extern_log(res):
             if not elems or elems <= 0:
                 continue
             p = c.get(nm)
-            nb = elems * rt.elsize
-            inside = False
+            nb = elems * es
+            if not p:
+                probs.append({'routine': c['routine'], 'argument': nm,
+                              'footprint_bytes': nb, 'pointer': 0,
+                              'actuals': dict(c)})
+                continue
+            inside, known = False, False
             for bname, b in bufs.items():
-                if b['addr'] and b['addr'] <= p and p + nb <= b['addr'] + \
-                        b['nbytes']:
-                    inside = True
+                if b['addr'] and b['addr'] <= p <= b['addr'] + b['nbytes']:
+                    known = True
+                    if p + nb <= b['addr'] + b['nbytes']:
+                        inside = True
+            if islap and not known:
+                # a temporary allocated by the wrapper (copy, pivots, work
+                # space): not judged from the log; see the valgrind run
+                continue
             if not inside:
                 probs.append({'routine': c['routine'], 'argument': nm,
                               'footprint_bytes': nb, 'pointer': p,
@@ -117,8 +160,16 @@ def replay_obligation(ob, meta, base, envs):
     model = ob.model
     if not model:
         return False, {'reason': 'verifier gave no model'}
+    fill = None
+    if ob.kind == 'nooverflow':
+        import re
+        m = re.search(r'\(int\)\s*MAT_BUFI\((\w+)\)\[', ob.text)
+        if m:
+            # narrowing of an element of an integer matrix: the witness is a
+            # matrix whose elements do not fit an int
+            fill = {m.group(1): 2**31 + 1}
     call = make_call(meta['module'], meta['fn'], meta['params'], meta['mats'],
-                     model)
+                     model, fill)
     if call is None:
         return False, {'reason': 'model not replayable (matrix too large or '
                        'unsupported argument kind)', 'model': model}
@@ -127,7 +178,9 @@ def replay_obligation(ob, meta, base, envs):
         envs[flavour] = replay_c.Env(ubsan=(flavour == 'ubsan'))
     env = envs[flavour]
     forward = ob.kind in ('effect-extent', 'frame', 'value')
-    res = env.call(call, forward=forward)
+    big = any(a.get('big') for a in list(call['args']) + list(
+        call['kwargs'].values()))
+    res = env.call(call, forward=forward, timeout=900 if big else 120)
     info = {'call': call, 'result': {k: v for k, v in res.items()
                                      if k not in ('stderr',)},
             'stderr_tail': res.get('stderr', '')[-1500:],
@@ -142,13 +195,21 @@ def replay_obligation(ob, meta, base, envs):
     if k == 'nooverflow':
         line = meta.get('line')
         hits = [l for l in res.get('ubsan', []) if '%s:' % meta['cfile'] in l]
-        exact = [l for l in hits if ':%s:' % line in l]
+        lines = range(line or 0, (meta.get('line_end') or line or 0) + 1)
+        exact = [l for l in hits if any(':%s:' % x in l for x in lines)]
         conf = bool(exact) or (bool(hits) and line is None)
         info['ubsan'] = hits
     elif k in ('footprint', 'extern-requires'):
         probs = check_extern_log(res)
         info['interposer_findings'] = probs
         conf = bool(probs) or bool(res.get('signal'))
+        if not conf and meta.get('cfile') == 'lapack.c' and exc is None:
+            # wrapper-allocated work space is not visible in the log: run
+            # the real routine under valgrind
+            r2 = env.call(call, forward=True, valgrind=True)
+            info['valgrind'] = r2.get('valgrind')
+            info['valgrind_signal'] = r2.get('signal')
+            conf = bool(r2.get('valgrind')) or bool(r2.get('signal'))
     elif k == 'accept-sound':
         conf = exc is None and res.get('returncode') == 0
     elif k == 'reject-tight':
